@@ -8,7 +8,9 @@ var Prefixes = []string{"a", "b", ""}
 func Values(c Combo) []string {
 	switch c.Policy {
 	case "set", "set_if_not_exists", "append":
-		return []string{"x", "yz", ""}
+		// the second value is longer than the 4-byte header between two entries of a snapshot file, so that a write
+		// past the end of a value that aliases the file buffer reaches the next entry's key
+		return []string{"x", "yz-0123456789", ""}
 	case "add", "min", "max":
 		switch c.VT {
 		case "int64", "bigint":
